@@ -80,7 +80,7 @@ def _worker(args):
     out = []
     for k, j in enumerate(states):
         rng = random.Random(seed_ * 67867967 + base + k)
-        fams = nets.FAMS + [("npint", "npint"), ("descset", "int"), ("collide", "int"), ("floatnode", "int")]
+        fams = nets.FAMS + [("npint", "npint"), ("descset", "int"), ("collide", "int"), ("floatnode", "int"), ("mixed", "int")]
         g = Gamma(*fams[(base + k) % len(fams)])
         vname, emap = rng.choice(obscore.edge_id_variants(j, rng))
         H = obscore.realise(j, g, rng, shuffle=True, edge_id_map=emap)
@@ -114,11 +114,14 @@ def run(tier, seed_):
     rngx = random.Random(seed_ + 99)
     extra = [[[k, (k + 1) % 6] for k in range(6)], [[k, (k + 1) % 7] for k in range(7)] + [[0, 8]],
              [list(range(14))] + [[k, 14 + k] for k in range(3)] + [[20]],
-             [[0, 1, 2], [2, 3], [3, 4], [4, 5, 6], [6, 0], [7]]]
+             [[0, 1, 2], [2, 3], [3, 4], [4, 5, 6], [6, 0], [7]],
+             # several components, the largest not visited last
+             [[0, 1, 2], [3, 4], [5, 6]], [[0, 1], [1, 2], [2, 3], [4, 5, 6], [7], [8, 9]], [[0, 1, 2, 3], [4, 5], [6, 7], [8]],
+             [[4, 5], [0, 1, 2], [6, 7]]]
     for _ in range(6 if tier == "quick" else 200):
         extra.append([sorted(rngx.sample(range(8), rngx.choice([1, 2, 2, 3, 4]))) for _ in range(rngx.randrange(3, 9))])
     for k, members in enumerate(extra):
-        g = Gamma(*nets.FAMS[k % len(nets.FAMS)])
+        g = Gamma(*(nets.FAMS + [("mixed", "int")])[k % 4])
         H = xgi.Hypergraph()
         H.add_nodes_from([g.node(n) for n in sorted({n for m in members for n in m} | {21})])
         for m in members:
